@@ -225,6 +225,8 @@ def from_meshio(m,
         # order as well: name the same cell in the mesh that is returned
         for k, v in _boundaries.items():
             facets = np.asarray(v)
+            if len(facets) == 0:
+                continue
             ori = getattr(v, 'ori', None)
             cells = mraw.f2t[0 if ori is None else ori, facets]
             ori = 1 * (mtmp.f2t[1, facets] == cells)
